@@ -481,13 +481,17 @@ func c16Listings(ctx *evid.Ctx, check checkTextAdapter, tier string) {
 			fn = append(fn, []int{a.load, a.kind, b.load, shNeutral, b.kind}, []int{a.load, a.kind, shNeutral, b.kind})
 		}
 	}
-	step := 1
+	// every function body is paired with a rotating selection of second bodies (quick: 16 each, thorough: 128 each)
+	step := len(fn) / 128
 	if tier == "quick" {
-		step = 5
+		step = len(fn) / 16
+	}
+	if step < 1 {
+		step = 1
 	}
 	var jobs [][]int
 	for i := 0; i < len(fn); i++ {
-		for j := 0; j < len(fn); j += step {
+		for j := i % step; j < len(fn); j += step {
 			t := append([]int{shFunc}, fn[i]...)
 			t = append(t, shFunc)
 			t = append(t, fn[j]...)
